@@ -22,6 +22,8 @@ Inductive gj_op :=
   | OPivotSwap (col n : nat) (rows : list nat) (cmp : gj_cmp) (init : Q)
   (** v = L[m][c] / L[p][c];  L[m] -= L[p] * v;  R[m] -= R[p] * v *)
   | OElim (m p c : nat)
+  (** v = L[m][c] / L[p][c];  if abs(v) `cmp` thr: continue;  L[m] -= L[p] * v;  R[m] -= R[p] * v *)
+  | OElimSkip (m p c : nat) (cmp : gj_cmp) (thr : Q)
   (** v = L[r][c]; if abs(v) `cmp` thr: raise ArithmeticError;  L[r] /= v;  R[r] /= v *)
   | OScale (r c : nat) (cmp : gj_cmp) (thr : Q).
 Record gj_prog := GjProg {
@@ -95,6 +97,12 @@ Section Run.
         if n_is_zero N d then GZeroDiv else
         let v := n_div N (vget (rget L m) c) d in
         GOk (rset L m (vsub (rget L m) (vmuls (rget L p) v)), rset R m (vsub (rget R m) (vmuls (rget R p) v)))
+    | OElimSkip m p c cmp thr =>
+        let d := vget (rget L p) c in
+        if n_is_zero N d then GZeroDiv else
+        let v := n_div N (vget (rget L m) c) d in
+        if n_cmp N cmp (n_abs N v) (n_ofQ N thr) then GOk s else
+        GOk (rset L m (vsub (rget L m) (vmuls (rget L p) v)), rset R m (vsub (rget R m) (vmuls (rget R p) v)))
     | OScale r c cmp thr =>
         let v := vget (rget L r) c in
         if n_cmp N cmp (n_abs N v) (n_ofQ N thr) then GNoInverse else
@@ -129,6 +137,12 @@ Definition av_join (a b : av) : av := match a, b with AZ, AZ => AZ | AO, AO => A
 Definition av_eqb (a b : av) : bool := match a, b with AZ, AZ | AO, AO | AT, AT => true | _, _ => false end.
 Definition vjoin (a b : v3 av) : v3 av := vbuild (fun j => av_join (vget a j) (vget b j)).
 
+(** A conditional skip of an elimination is harmless exactly when it fires only for a multiplier that IS zero
+    ([abs(v) <= 0]): then the skipped row operation would not have changed anything (over the reals).  Any other skip
+    guard leaves the column possibly uncleared: nothing is known about the row afterwards. *)
+Definition q_is_zero (q : Q) : bool := Z.eqb (Qnum q) 0.
+Definition skip_exact (cmp : gj_cmp) (thr : Q) : bool := match cmp with CLe => q_is_zero thr | _ => false end.
+
 Definition abs_op (o : gj_op) (L : r3 av) : r3 av :=
   match o with
   | OPivotSwap _ n rows _ _ =>
@@ -142,6 +156,11 @@ Definition abs_op (o : gj_op) (L : r3 av) : r3 av :=
       (* the division succeeded, so L[p][c] <> 0 and L[m][c] - L[p][c] * (L[m][c] / L[p][c]) = 0;
          a column where the pivot row holds 0 is unchanged *)
       rset L m (vbuild (fun j => if Nat.eqb j (idx c) then AZ else match vget rp j with AZ => vget rm j | _ => AT end))
+  | OElimSkip m p c cmp thr =>
+      if skip_exact cmp thr && negb (Nat.eqb (idx m) (idx p)) then
+        let rp := rget L p in let rm := rget L m in
+        rset L m (vbuild (fun j => if Nat.eqb j (idx c) then AZ else match vget rp j with AZ => vget rm j | _ => AT end))
+      else rset L m (AT, AT, AT)
   | OScale r c _ _ =>
       let row := rget L r in
       rset L r (vbuild (fun j => if Nat.eqb j (idx c) then AO else match vget row j with AZ => AZ | _ => AT end))
@@ -158,7 +177,7 @@ Definition lt3 (i : nat) : bool := Nat.ltb i 3.
 Definition op_in_range (o : gj_op) : bool :=
   match o with
   | OPivotSwap col n rows _ _ => lt3 col && lt3 n && forallb lt3 rows
-  | OElim m p c => lt3 m && lt3 p && lt3 c
+  | OElim m p c | OElimSkip m p c _ _ => lt3 m && lt3 p && lt3 c
   | OScale r c _ _ => lt3 r && lt3 c
   end.
 Fixpoint list_eqb {A} (e : A -> A -> bool) (a b : list A) : bool :=
@@ -177,5 +196,8 @@ Definition out_ok (p : gj_prog) : bool :=
   list_eqb pair_eqb (gp_out p) [(0, 0); (0, 1); (0, 2); (1, 0); (1, 1); (1, 2); (2, 0); (2, 1); (2, 2)].
 Definition ops_in_range (p : gj_prog) : bool := forallb op_in_range (gp_ops p).
 Definition left_becomes_identity (p : gj_prog) : bool := r3_eqb (abs_run (gp_ops p) top3) id3.
+(** Named part: every conditional skip of an elimination is of the harmless kind. *)
+Definition skips_only_exact_zero (p : gj_prog) : bool :=
+  forallb (fun o => match o with OElimSkip _ _ _ cmp thr => skip_exact cmp thr | _ => true end) (gp_ops p).
 Definition gj_prog_ok (p : gj_prog) : bool :=
   init_l_ok p && init_r_ok p && out_ok p && ops_in_range p && left_becomes_identity p.
